@@ -301,6 +301,14 @@ def run_impl(case):
         obs["arg2"] = c2[0][2] if c2 else None
     except SyntaxError:
         obs["arg2"] = None
+    # the value reaches the snapshot through a name: `S = snapshot(V0)` never compared, `V0 == snapshot(V0)` in a loop
+    # (the argument node is an ast.Name whatever the value is; second iteration re-evaluates the argument)
+    if case["op"] == "eq" and len(case["vals"]) == 1:
+        L = [PRELUDE, f"V0 = {case['vals'][0]}", "", "S = snapshot(V0)", "", "def test_a():", "    for _ in range(2):",
+             "        R.append(bool(V0 == snapshot(V0)))", ""]
+        rn = impl_inline.run_program({"test_case.py": "\n".join(L)}, common.CATS, common.CATS)
+        obs["name_probe"] = {"errors": [rn["import_error"], rn["apply_error"], rn["collect_errors"]], "R": rn["R"][0][1] if rn["R"] else None,
+                             "raised": [t["raised"] for t in rn["tests"]]}
     # a third run: the second run may have been an update; the third must be a fixed point
     r3 = impl_inline.run_program({"test_case.py": after2}, common.CATS, common.CATS)
     obs["third_changed"] = r3["files_after"].get("test_case.py", "") != after2
@@ -371,6 +379,13 @@ def oracle(case, obs):
             fails.append(("C08", "nothing_pending", f"{desc}: after create {obs['arg']!r} the second run reports {obs['second_cats']}"))
         if obs["third_changed"]:
             fails.append(("C08", "rerun_noop", f"{desc}: {obs['arg']!r} -> {obs.get('arg2')!r} -> changes again in a third identical run"))
+    npb = obs.get("name_probe")
+    if npb:
+        if npb["errors"][1] or npb["errors"][2]:
+            fails.append(("C18", "finish_total", f"S = snapshot(V0) / V0 == snapshot(V0) in a loop with V0 = {case['vals'][0]}: {npb['errors']}"))
+        elif not npb["errors"][0] and (npb["R"] != [True, True] or any(npb["raised"])):
+            fails.append(("C06", "transparent", f"V0 == snapshot(V0) twice in a loop with V0 = {case['vals'][0]}: results {npb['R']}, raised {npb['raised']}"))
+            fails.append(("C14", "unchanged_argument_accumulates", f"V0 == snapshot(V0) twice in a loop with V0 = {case['vals'][0]}: results {npb['R']}, raised {npb['raised']}"))
     m = obs.get("multi")
     if m:
         seeds = [m[k]["arg"] for k in ("seed0", "seed1", "seed4242")]
